@@ -73,6 +73,7 @@ type VC struct {
 	oblCount map[string]int
 	condAxioms []condAxiom
 	opaqueArith bool
+	droppedInvs []string
 }
 
 type condAxiom struct {
